@@ -118,7 +118,7 @@ class Concretiser:
             return b'', 'empty', ''
         if units == 1:
             c = r.choice(h.classes)
-            code = c.MESSAGE_ID.serialize()
+            code = L.code_bytes(c)
             if len(code) == 1 and r.random() < 0.5:
                 return code, 'code_only', c.__qualname__
             return bytes([r.getrandbits(8)]), 'one_byte', ''
@@ -444,13 +444,14 @@ class Runner:
                 # the client dials a scripted peer: told to by the server (ConnectToPeer, kind peer) or
                 # because the server named it as a potential distributed parent (kind dist)
                 from ..simserver import ScriptedPeer
+                from aioslsk.protocol import primitives as P
                 pport = 2235 if kind == 'peer' else 2236
                 sp = await ScriptedPeer(net, 'peer1' if kind == 'peer' else 'dparent', pport).listen()
                 keep.append(sp)
                 if kind == 'peer':
                     sess.send(M.ConnectToPeer.Response('peer1', 'P', '10.0.0.5', pport, 4242, False, 0, 0))
                 else:
-                    sess.send(M.PotentialParents.Response([M.PotentialParent('dparent', '10.0.0.6', pport)]))
+                    sess.send(M.PotentialParents.Response([P.PotentialParent('dparent', '10.0.0.6', pport)]))
                 await vloop.settle(loop, 400)
                 conn = next((c for c in network.peer_connections if c.port == pport), None)
                 if conn is None or not sp.accepted or conn.state.name != 'CONNECTED':
@@ -971,9 +972,10 @@ def large_body(conc: Concretiser, fam, size, how):
                                                 upload_slots=3, queue_size=0, has_slots_free=True)
             else:
                 # zlib output must itself be large: hard to compress names
-                files = [M.FileData(1, '%032x.mp3' % r.getrandbits(128), r.getrandbits(30), 'mp3', [])
+                from aioslsk.protocol import primitives as P
+                files = [P.FileData(1, '%032x.mp3' % r.getrandbits(128), r.getrandbits(30), 'mp3', [])
                          for _ in range(size // 28)]
-                m = M.PeerSharesReply.Request([M.DirectoryData('music', files)])
+                m = M.PeerSharesReply.Request([P.DirectoryData('music', files)])
         elif fam == 'server':
             if r.random() < 0.5:
                 m = M.AdminMessage.Response('A' * size)
